@@ -206,7 +206,7 @@ def prog_lines(rng, progs, per):
     cases = []
     for p in progs:
         exe = exe_path(p)
-        cases.append(p.line("DOTRLA", exe, ign="y"))
+        cases.append(p.line("DOVTRLA", exe, ign="y"))
         cases.append(p.line("DTRL", exe, ign="n"))
         cases.append(p.line("TR", exe, ign="o"))
         for _ in range(per):
